@@ -105,7 +105,7 @@ func (c c03Consumer) extAt() string {
 func RunC03(tier string) int {
 	rep := core.NewReport("C03", tier)
 	thorough := tier == "thorough"
-	deadline := time.Now().Add(110 * time.Second)
+	deadline := time.Now().Add(180 * time.Second)
 	if thorough {
 		deadline = time.Now().Add(28 * time.Minute)
 	}
